@@ -31,6 +31,7 @@ def actsOf (c : Chain) (cmd : String) : List Act :=
     let n := layer.toUTF8.toList.map (·.toNat)
     let i := idxOf c n
     if verb == "mount" then mountChainActs ((List.range (i + 1)).map (layerTargets c))
+    else if verb == "chroot" then chrootChainActs ((List.range (i + 1)).map (layerTargets c))
     else
       let kids := if i + 1 < c.names.length then [buildOf (c.names.getD (i + 1) [])] else []
       umountLayerActs (buildOf n) kids
